@@ -16,6 +16,7 @@ mod engine_b;
 mod engine_c;
 #[cfg(feature = "fc-std")]
 mod engine_t;
+mod engine_s;
 mod engine_z;
 mod model;
 mod world;
@@ -154,6 +155,7 @@ fn run_one(engine: &str, prop: &str, thorough: bool, case_seed: u64, sub: u64) -
         #[cfg(feature = "fc-std")]
         "T" => engine_t::run(prop, thorough, case_seed),
         "Z" => engine_z::run(prop, case_seed),
+        "S" => engine_s::run(prop, case_seed),
         e => panic!("engine {e} not available in configuration {}", config_name()),
     }
 }
@@ -217,7 +219,7 @@ fn cmd_run(args: &[String]) {
     let iters: u64 = arg(args, "--iters").unwrap_or("1000").parse().expect("iters");
     let out = arg(args, "--out");
     let engines: Vec<(&str, u32)> = match arg(args, "--engines") {
-        Some(e) => ["A", "B", "C", "T", "Z"].into_iter().filter(|n| e.split(',').any(|x| x == *n)).map(|n| (n, 1)).collect(),
+        Some(e) => ["A", "B", "C", "T", "Z", "S"].into_iter().filter(|n| e.split(',').any(|x| x == *n)).map(|n| (n, 1)).collect(),
         None => engines_for(prop),
     };
     let breadcrumb = arg(args, "--breadcrumb");
